@@ -829,7 +829,27 @@ Definition c04_delivered (t : trans) : bool :=
           =? sumZ (map (sell_amount (a_pay_denom a)) (filter (fun b => N.eqb (b_bidder b) u) (bids_of (t_pre t) (a_id a)))))
           (filter (fun u => negb (N.eqb u (a_auctioneer a))) users)
     end) (settling t).
-Definition c04_all (t : trans) : bool := c04_ok t && c04_delivered t.
+(* C04, modifications: what an accepted modification charges is the increase of the reservation OF THE BID AS IT IS
+   RECORDED afterwards - the settlement refunds against the records, so a charge for more than the record says is a
+   payment above the price *)
+Definition c04_modify (t : trans) : bool :=
+  match t_op t with
+  | OTx m =>
+      match check_basic m with
+      | Some (CModifyBid u id bid_id price d amt) =>
+          if oclass_eqb (t_class t) KOk then
+            match find_auction (t_pre t) id, find_bid (t_pre t) id bid_id, find_bid (t_post t) id bid_id with
+            | Some a, Some b, Some b' =>
+                sum_xfers (t_xfers t) (from_to (User u) (Escrow Paying id) (a_pay_denom a))
+                =? pay_amount (a_pay_denom a) b' - pay_amount (a_pay_denom a) b
+            | _, _, _ => false
+            end
+          else true
+      | _ => true
+      end
+  | _ => true
+  end.
+Definition c04_all (t : trans) : bool := c04_ok t && c04_delivered t && c04_modify t.
 
 (* C05, "the maximum bid amount the allow-list granted": after an accepted allow-list operation the stored maximum
    of every account it names is the one granted last (a later entry for the same account overrides an earlier one) *)
@@ -850,7 +870,16 @@ Definition c05_grants (t : trans) : bool :=
   | OTx (MAddAllowed id _ (AGood _ u) max), KOk => optZ_eqb (stored_max (t_post t) id u) max
   | _, _ => true
   end.
-Definition c05_all (t : trans) : bool := c05_ok t && c05_grants t.
+(* the two allow-list calls of the keeper (what other modules use in a default build) are accepted exactly when the
+   model accepts them from the same state: an existing auction, well-formed accounts, positive maxima that an added
+   entry may not exceed by the OFFERED amount (not by what is left of it), no vetoing listener *)
+Definition c05_api (t : trans) : bool :=
+  match t_op t with
+  | OApiAdd _ _ | OApiUpdate _ _ _ =>
+      oclass_eqb (t_class t) (class_of (fst (step (with_trace (with_bank (t_pre t) (st_bal (t_pre t)) []) []) (t_op t))))
+  | _ => true
+  end.
+Definition c05_all (t : trans) : bool := c05_ok t && c05_grants t && c05_api t.
 
 (* C09, liveness of the payment: "in the first block at or after its release time".  A block that fails without an
    injected fault and without a vetoing listener while an instalment is due (or while a settlement is due, which pays
